@@ -122,8 +122,16 @@ def cases(draw, tier):
                 t = ["pow", t, ["lit", 2]]
         elif brk == "power":
             t = ["pow", t, ["lit", draw(st.sampled_from([2, 3, 0.5]))]] if not cplx else ["pow", t, ["lit", 2]]
-    itype = "dx"
-    return {"world": world, "vars": G.vars, "integrals": [{"itype": itype, "sid": None, "md": {}, "expr": t}],
+    # further (well-formed) integrals on the same or other subdomains / with other metadata: the check has to look at
+    # every integrand of the form, wherever grouping puts it
+    from vf.forms import draw_md
+
+    integrals = [{"itype": "dx", "sid": draw(st.sampled_from([None, None, 1])), "md": draw_md(draw), "expr": t}]
+    for _ in range(draw(st.sampled_from([0, 0, 1, 2]))):
+        integrals.insert(draw(st.integers(0, len(integrals))),
+                         {"itype": "dx", "sid": draw(st.sampled_from([None, None, 1])), "md": draw_md(draw),
+                          "expr": L.term(argnames, 1)})
+    return {"world": world, "vars": G.vars, "integrals": integrals,
             "cplx": cplx, "kind": kind, "break": brk, "env_seed": draw(st.integers(0, 10**6))}
 
 
@@ -186,7 +194,6 @@ def check_case(case):
     if form is None or not form.integrals():
         raise Discard("empty form")
     cplx = case["cplx"]
-    F = exprs[0]
     args = form.arguments()
     if not args:
         raise Discard("no arguments left")
@@ -201,12 +208,17 @@ def check_case(case):
         if type(ex).__name__ in ("CaseTimeout", "StopRun", "KeyboardInterrupt"):
             raise
         raise Discard("other:" + exc_bucket(ex))
-    order = derivative_depth(F)
-    if order > 3:
-        raise Discard("derivative order > 3")
-    defect, nonzero = linearity_defect(case, b, F, args, cplx, order)
+    defect, nonzero = 0.0, False
+    for F in exprs:
+        order = derivative_depth(F)
+        if order > 3:
+            raise Discard("derivative order > 3")
+        d1, nz = linearity_defect(case, b, F, args, cplx, order)
+        defect = max(defect, d1)
+        nonzero |= nz
     linear = defect < 1e-7
-    labels = ["complex" if cplx else "real", "accepted" if accepted else "rejected", "kind:" + case["kind"]]
+    labels = ["complex" if cplx else "real", "accepted" if accepted else "rejected", "kind:" + case["kind"],
+              "integrals:%d" % len(exprs)]
     if case["break"]:
         labels.append("break:" + case["break"])
     if accepted and not linear:
